@@ -31,6 +31,8 @@ ASSUMPTIONS = [
 ALL_EXHAUSTIVE = False
 BASE = 'http://example.org/api'
 URL = BASE + '/objects.inv'
+BASE2 = 'http://other.example/docs'
+URL2 = BASE2 + '/objects.inv'
 
 
 class Cache:
@@ -321,6 +323,21 @@ def check_robust(case: Dict[str, Any]) -> List[Tuple[str, str]]:
         if link != want:
             out.append(('intact-line-lost', 'intact line %r resolves to %r instead of %r (container %s, damage %s)' % (
                 ' '.join([name, typ, prio, loc, disp]), link, want, case.get('container'), case.get('ops'))))
+            break
+    # a run loads several inventories with one reader: whatever this one was, a sound one loaded *after* it still resolves, and
+    # what resolved from this one keeps resolving
+    good = HEADER + zlib.compress(b'after.ok py:class 1 after/ok.html -\nafter.fn py:function 1 after/mod.html#$ -\n')
+    before = {name: inv.getLink(name) for name, *_r in case.get('intact', [])}
+    try:
+        inv.update(Cache(good), URL2)
+    except BaseException as e:
+        return out + [('reader-raises', 'loading a sound inventory after this one raised %s: %s (container %s, damage %s)' % (type(e).__name__, e, case.get('container'), case.get('ops')))]
+    if inv.getLink('after.ok') != BASE2 + '/after/ok.html' or inv.getLink('after.fn') != BASE2 + '/after/mod.html#after.fn':
+        out.append(('later-inventory-lost', 'a sound inventory loaded after this one does not resolve: after.ok -> %r, after.fn -> %r (container %s, damage %s)' % (
+            inv.getLink('after.ok'), inv.getLink('after.fn'), case.get('container'), case.get('ops'))))
+    for name, link in before.items():
+        if inv.getLink(name) != link:
+            out.append(('intact-line-lost', '%r resolved to %r, and to %r after another inventory was loaded' % (name, link, inv.getLink(name))))
             break
     return out
 
